@@ -51,6 +51,12 @@ HARNESSES = [
     H("c14c01c02_lex_var_name_q", ["C14", "C01", "C02", "C17"]),
     H("c14c01c02_lex_code_q", ["C14", "C01", "C02", "C17"]),
     H("c14c01c02_lex_hash_q", ["C14", "C01", "C02", "C17"]),
+    H("c14c20_lex_bang_words_q", ["C14", "C20"], weight=80),
+    H("c14c20_lex_keyword_words_q", ["C14", "C20"], weight=80),
+] + [
+    H(f"c14c01c02_lex_{r}_t", ["C14", "C01", "C02", "C17"], tier="thorough", timeout=3600, weight=200)
+    for r in ["whitespace", "line_comment", "block_comment", "number", "identifier", "string",
+              "var_name", "code", "hash"]
 ]
 
 
